@@ -43,6 +43,12 @@ def run(ctx):
         return
     summ = json.load(open(os.path.join(out, "summary.json")))
     allc = json.load(open(os.path.join(out, "all_cases.json")))
+    if summ["shards"] == 0 and ctx.replay:
+        # replay of a concurrent case: only the oracle applies
+        for f in summ["oracle_failures"][:1]:
+            ctx.violation({"property": "C19", "kind": "oracle", "why": f["why"], "case": f["case"]})
+        ctx.cov.update({"evaluations": summ.get("concurrent_rounds", 0), "distinct_nontrivial": 2, "rule": "replay of a concurrent case", "samples": summ["oracle_failures"][:1] or [{"replay": "no failure reproduced"}]})
+        return
     shards = [open(os.path.join(out, "cases_%d.v" % i)).read() for i in range(summ["shards"])]
     res = vlib.coq_eval("C19", shards)
     bad, evaluated, coq_err = [], 0, []
@@ -62,6 +68,7 @@ def run(ctx):
         "traces_validated_against_impl": evaluated,
         "model_disagreements": len(bad),
         "oracle_failures": len(summ["oracle_failures"]),
+        "concurrent_rounds_frozen_clock": summ.get("concurrent_rounds", 0),
     })
     # --- decide
     for f in summ["oracle_failures"]:
